@@ -30,14 +30,13 @@ type genBatch struct {
 
 // Gen produces op sequences and keeps just enough bookkeeping to use handles sensibly.
 type Gen struct {
-	r        *lib.RNG
-	batches  []genBatch
-	snaps    []bool // live
-	iters    []bool // live
-	iterSrc  []string
-	closed   bool
-	allowF5  bool // may change the store while a live batch holds a materialised DeleteRange
-	wildIter bool // may ask for iterator bounds outside what db/memory handles today
+	r       *lib.RNG
+	batches []genBatch
+	snaps   []bool // live
+	iters   []bool // live
+	iterSrc []string
+	closed  bool
+	allowF5 bool // may change the store while a live batch holds a materialised DeleteRange
 }
 
 func (g *Gen) key() []byte    { return lib.Pick(g.r, keyAlphabet) }
@@ -45,23 +44,7 @@ func (g *Gen) val() []byte    { return lib.Pick(g.r, valAlphabet) }
 func (g *Gen) bound() []byte  { return lib.Pick(g.r, boundAlphabet) }
 func (g *Gen) prefix() []byte { return lib.Pick(g.r, prefixAlphabet) }
 
-func (g *Gen) iterArgs() ([]byte, bool) {
-	for {
-		p, u := g.prefix(), g.r.Chance(2, 3)
-		if g.wildIter {
-			return p, u
-		}
-		allFF := true
-		for _, b := range p {
-			if b != 0xff {
-				allFF = false
-			}
-		}
-		if (u && !allFF) || (!u && len(p) == 0) {
-			return p, u
-		}
-	}
-}
+func (g *Gen) iterArgs() ([]byte, bool) { return g.prefix(), g.r.Chance(2, 3) }
 
 func pickLive(r *lib.RNG, live []bool) int {
 	var c []int
@@ -214,6 +197,9 @@ func (g *Gen) Next() Op {
 			return Op{K: "has", Src: g.src(), Key: g.key(), NilB: nb}
 		case c < 38:
 			p, u := g.iterArgs()
+			if g.r.Chance(1, 4) {
+				return Op{K: "rscan", Src: g.src(), Key: p, U: u, Key2: g.bound(), NilB: nb}
+			}
 			return Op{K: "scan", Src: g.src(), Key: p, U: u, NilB: nb}
 		case c < 43:
 			p, u := g.iterArgs()
@@ -270,6 +256,18 @@ func (g *Gen) Next() Op {
 						{K: "get", Src: fmt.Sprintf("b%d", i), Key: g.key()}})
 				}
 			}
+		case c < 71:
+			// (outside the contract) a batch that was not created indexed is read anyway
+			for i, b := range g.batches {
+				if b.live && !b.idx && g.r.Bool() {
+					return lib.Pick(g.r, []Op{{K: "get", Src: fmt.Sprintf("b%d", i), Key: g.key()}, {K: "has", Src: fmt.Sprintf("b%d", i), Key: g.key()}})
+				}
+			}
+			// reopen / flush when nothing is live
+			if pickLive(g.r, g.iters) < 0 && pickLive(g.r, g.snaps) < 0 && g.liveBatch(false) < 0 {
+				return Op{K: "reopen", U: g.r.Bool()}
+			}
+			return Op{K: "flush"}
 		case c < 73:
 			g.snaps = append(g.snaps, true)
 			return Op{K: "snap"}
@@ -290,7 +288,7 @@ func (g *Gen) Next() Op {
 				case m < 18:
 					return Op{K: "seek", H: i, Key: g.bound(), NilB: nb}
 				case m < 19:
-					return Op{K: "value", H: i}
+					return lib.Pick(g.r, []Op{{K: "value", H: i}, {K: "value", H: i, U: true}, {K: "key", H: i}, {K: "key", H: i}})
 				default:
 					g.iters[i] = false
 					return Op{K: "iclose", H: i}
@@ -321,8 +319,8 @@ func (g *Gen) Next() Op {
 }
 
 // Sequence generates one op sequence of the given length.
-func genSequence(r *lib.RNG, n int, allowF5, wildIter bool) []Op {
-	g := &Gen{r: r, allowF5: allowF5, wildIter: wildIter}
+func genSequence(r *lib.RNG, n int, allowF5, _ bool) []Op {
+	g := &Gen{r: r, allowF5: allowF5}
 	// start from a populated store most of the time
 	var ops []Op
 	for i, m := 0, r.Intn(7); i < m; i++ {
